@@ -44,6 +44,10 @@ func genCfg(r *Run, odd bool, i int) hCfg {
 		// "for all header/preamble configurations": the same header name for both tokens loads fine
 		c.Access, c.AccHeader = true, c.IDHeader
 	}
+	if rng.Intn(3) == 0 {
+		// the real key source (DefaultJWKSProvider) on the filter's own configuration: inline JWKS or a fetched one
+		c.RealKeys = pick(rng, []string{"static", "fetcher"})
+	}
 	if rng.Intn(4) == 0 {
 		c.Abs, c.Idle = pick(rng, []time.Duration{0, 300 * time.Second}), pick(rng, []time.Duration{0, 100 * time.Second})
 	}
@@ -439,7 +443,7 @@ func (g *histGen) step() {
 		o := g.s.do(base)
 		g.after(b, base, o)
 	case 4:
-		if g.p.Hostile > 20 && !keys().rotated && rng.Intn(12) == 0 {
+		if g.p.Hostile > 20 && !keys().rotated && g.s.w.cfg.RealKeys == "" && rng.Intn(12) == 0 {
 			g.s.rotateKeys()
 			return
 		}
